@@ -372,6 +372,9 @@ def run_handover(case, dest_factory=None):
             return clock[0]
 
         def adder():
+            for k in range(case.get("globals_first", 0)):
+                # the thread that registers the destinations sets global fields first, one call each
+                fresh.addGlobalFields(**{"h%d" % k: k})
             fresh.add(*(dests[1:] if second else dests))
             if case.get("remove_after_add") and len(dests) >= 2:
                 fresh.remove(dests[0])
@@ -504,6 +507,8 @@ def classify_handover(case, info):
         labels.append("preempted-inside-send-or-add")
     labels.append("granularity:bytecode" if case.get("opcodes") else "granularity:line")
     labels.append("raced-call:later-add" if case.get("second_add") and info["ndest"] >= 2 else "raced-call:first-add")
+    if case.get("globals_first"):
+        labels.append("global-fields-added-concurrently")
     return info["switch_inside"] >= 1, labels
 
 
@@ -511,7 +516,8 @@ def handover_strategy():
     from .. import sched
 
     return st.builds(
-        lambda second, opc, pre, ndest, rem, plan, loggers: sched.with_granularity({"second_add": second, "pre": pre, "ndest": ndest, "remove_after_add": rem, "plan": plan, "loggers": loggers}, opc),
+        lambda gf, second, opc, pre, ndest, rem, plan, loggers: sched.with_granularity({"globals_first": gf, "second_add": second, "pre": pre, "ndest": ndest, "remove_after_add": rem, "plan": plan, "loggers": loggers}, opc),
+        st.sampled_from([0, 0, 2, 3]),
         st.sampled_from([False, False, True]),
         st.sampled_from([False, False, True]),
         st.integers(0, 2),
@@ -537,6 +543,9 @@ def handover_enum_runner(mod, facet, tier, seed, shard, nshards, stats):
     for ndest in (2,):
         for plan in sched.double_preemption_plans(2, depth, stride):
             cases.append({"pre": 1, "ndest": ndest, "plan": plan, "loggers": [[1, 0]]})
+    # global fields being added (one call per field) while a logging thread is inside send
+    for plan in sched.double_preemption_plans(2, 16, 1):
+        cases.append({"globals_first": 3, "second_add": True, "pre": 1, "ndest": 2, "plan": plan, "loggers": [[1, 0]]})
     # a later add_destinations racing a logging thread (the first add was done before)
     for plan in sched.single_preemption_plans(2, depth):
         cases.append({"second_add": True, "pre": 1, "ndest": 2, "plan": plan, "loggers": [[2, 0]]})
